@@ -287,6 +287,14 @@ class Verdict:
         self.violations = []   # (signature, replay path, text)
         self.known_hits = {}
         self.kf = [k for k in load_known_findings().get("known", []) if k.get("property") == pid]
+        # replay files of earlier runs of this check are stale
+        ensure_dirs()
+        for f in os.listdir(REPLAYS):
+            if f.startswith(pid + "-"):
+                try:
+                    os.remove(os.path.join(REPLAYS, f))
+                except OSError:
+                    pass
 
     def violation(self, signature, name, payload, text):
         """signature: a stable string describing *what* fails (used to match known findings)."""
